@@ -142,9 +142,9 @@ func cmdCheck(args []string) int {
 		return 2
 	}
 	tLoad := time.Since(t0).Seconds()
-	timeout := 10
+	timeout := 25
 	if *tier == "thorough" {
-		timeout = 60
+		timeout = 90
 		targetBudgetSecs = 900
 	}
 	// targets
@@ -419,6 +419,8 @@ func contains(xs []string, s string) bool {
 
 func runTarget(p *Loaded, t Target, selRet int) (res *TargetResult) {
 	t0 := time.Now()
+	noLinear = !(t.Lemma != nil && t.Lemma.Linear)
+	defer func() { noLinear = true }()
 	x := NewExec(p)
 	x.selectReturn = selRet
 	x.deadline = t0.Add(time.Duration(targetBudgetSecs) * time.Second)
